@@ -33,6 +33,7 @@ OPS = [
     ("uoa", "a"), ("uoc", "b"),
     ("cleanup", "plain"), ("cleanup", "args"), ("cleanup", "layer:testrun"), ("cleanup", "layer:feature"),
     ("fixture", "gen"), ("fixture", "plain"), ("fixture", "failing-gen"), ("fixture", "composite-fail"),
+    ("cleanup-shared", "plain"), ("cleanup-shared", "layer:feature"), ("cleanup-shared", "layer:testrun"),
 ]
 
 
@@ -97,6 +98,9 @@ def _h_ctx_ops(sx):
         fn.__name__ = "cleanup%d" % me
         return fn, me
 
+    def shared_fn():
+        ran.append("shared")
+
     def same(x, y):
         if isinstance(x, symx.SymInt) or isinstance(y, symx.SymInt):
             return x == y
@@ -142,7 +146,7 @@ def _h_ctx_ops(sx):
             got = ran[before:]
             sx.check(got == expect, "C13.cleanups-lifo-exactly-once-at-scope-end",
                      detail=lambda m: {"history": tag, "ran": got, "expected": expect})
-            anyraise = any(bool(sx.bool("raise%d" % c)) for c in expect)
+            anyraise = any(bool(sx.bool("raise%d" % c)) for c in expect if c != "shared")
             sx.check((raised is not None) == anyraise, "C13.raising-cleanup-surfaces",
                      detail=lambda m: {"history": tag, "raised": repr(raised), "expected_raise": anyraise})
             sx.check(len(ctx._stack) == len(ref.frames), "C13.scope-removed-even-if-cleanup-raises",
@@ -201,6 +205,21 @@ def _h_ctx_ops(sx):
             else:
                 fn, me = mk_cleanup(ref.frames[0])
                 ctx.add_cleanup(fn)
+        elif kind == "cleanup-shared":
+            # the SAME callable registered again: runs exactly once in every scope it was registered for
+            how = op[1]
+            if how.startswith("layer:"):
+                fr = ref.frame_for_layer(how.split(":")[1])
+                if fr is None:
+                    continue
+            else:
+                fr = ref.frames[0]
+            if "shared" not in fr["cleanups"]:
+                fr["cleanups"].append("shared")
+            if how.startswith("layer:"):
+                ctx.add_cleanup(shared_fn, layer=how.split(":")[1])
+            else:
+                ctx.add_cleanup(shared_fn)
         elif kind == "fixture":
             how = op[1]
             if how == "gen":
@@ -280,7 +299,8 @@ def _h_ctx_ops(sx):
         pass
     sx.check(ran[before:] == expect, "C13.cleanups-lifo-exactly-once-at-scope-end",
              detail=lambda m: {"history": list(history), "ran": ran[before:], "expected": expect, "phase": "testrun"})
-    sx.check(len(set(ran)) == len(ran), "C13.no-cleanup-runs-twice", detail=lambda m: {"history": list(history), "ran": ran})
+    own = [c for c in ran if c != "shared"]
+    sx.check(len(set(own)) == len(own), "C13.no-cleanup-runs-twice", detail=lambda m: {"history": list(history), "ran": ran})
     return {"history": [list(o) for o in history], "ran": list(ran)}
 
 
@@ -322,6 +342,10 @@ def h_cleanup_runs(sx):
         o = w.out(sid, src)
         if o == 6:
             key = "%s:%s" % (sid, src)
+            if w.opts.get("cleanup_shared"):
+                if any(k == "shared" for k, _ in step_regs):
+                    continue
+                key = "shared"
             e = by_id[sid]
             if layer == "feature":
                 owner = [a for a in [e] + list(e.ancestors()) if a.kind == "feature"][0].eid
@@ -363,6 +387,11 @@ def h_cleanup_runs(sx):
         # registration order among step-registered and hook-registered ones of one owner follows the timeline
         sx.check(sorted(seg) == sorted(keys), "C13.run.cleanup-at-scope-end", detail=lambda m, owner=owner, seg=seg: dict(det(m), owner=owner, segment=seg))
         sx.check(seg == expect, "C13.run.cleanup-reverse-order", detail=lambda m, owner=owner, seg=seg, expect=expect: dict(det(m), owner=owner, segment=seg, expected=expect))
+    if w.opts.get("cleanup_shared"):
+        # the same callable registered from several scenarios for the feature layer runs exactly once, at feature end
+        nshared = ran.count("shared")
+        sx.check(nshared == (1 if w.shared_registrations else 0), "C13.run.same-callable-runs-once-per-scope",
+                 detail=lambda m: dict(det(m), registrations=w.shared_registrations, runs=nshared))
     raised = [e[1] for e in w.events if e[0] == "cleanup-raised"]
     st = w.status_table()
     if raised:
@@ -481,6 +510,7 @@ def jobs(tier, seed):
         "sc-layer": ([F([S(2), S(1)])], {"out_dom": {"*": [5, 6]}}),
         "feature-layer": ([F([S(1), R([S(1)])])], {"out_dom": {"*": [6, 6]}, "cleanup_layer": "feature"}),
         "testrun-layer": ([F([S(1)]), F([S(1)])], {"out_dom": {"*": [6, 6]}, "cleanup_layer": "testrun"}),
+        "shared-feature-layer": ([F([S(1), S(2), S(1)])], {"out_dom": {"*": [5, 6]}, "cleanup_layer": "feature", "cleanup_shared": True}),
     }
     if tier == "thorough":
         runs.update({
@@ -490,7 +520,8 @@ def jobs(tier, seed):
     for name, (sh, opts) in runs.items():
         js.append(Job("run.%s" % name, "props.c13:h_cleanup_runs", {"shapes": sh, "opts": opts},
                       reach=["C13.run.cleanup-exactly-once", "C13.run.cleanup-reverse-order", "C13.run.raising-cleanup-fails-run",
-                             "C13.run.raising-cleanup-marks-owner-error"], min_paths=20, cost=3000,
+                             "C13.run.raising-cleanup-marks-owner-error"] if name != "shared-feature-layer" else ["C13.run.same-callable-runs-once-per-scope"],
+                      min_paths=20, cost=3000,
                       validate=100 if tier == "quick" else 1000))
     js.append(Job("execute_steps", "props.c13:h_execute_steps", {}, reach=["C13.exec.restores-table-text"], min_paths=5,
                   cost=50, validate="all"))
